@@ -471,7 +471,9 @@ func (r *runner) exec(c *Cmd) error {
 			for _, row := range sub {
 				v, ok := row.Dims[dim]
 				if !ok || v == nil {
-					continue
+					// goexpr's IN compares NULL equal to every zero value (0, '', false): a
+					// sub-query that returns a NULL has no equivalent literal list
+					return nil, fmt.Errorf("the sub-query returns a NULL, which a literal list cannot express")
 				}
 				var lit string
 				switch x := v.(type) {
